@@ -640,7 +640,7 @@ func firstKey(diff []string) string {
 }
 
 func Run(c *vh.Ctx) {
-	n := c.N(24, 40)
+	n := c.N(24, 16)
 	vh.Parallel(n, func(i int) {
 		if c.Skip("c10", i) {
 			return
